@@ -7,7 +7,12 @@ import operator
 from functools import reduce
 
 import claripy
-from claripy.annotation import RegionAnnotation, StridedIntervalAnnotation, UninitializedAnnotation
+from claripy.annotation import (
+    RegionAnnotation,
+    SimplificationAvoidanceAnnotation,
+    StridedIntervalAnnotation,
+    UninitializedAnnotation,
+)
 from claripy.ast import BV, Base
 from claripy.backends.backend import Backend
 from claripy.backends.backend_vsa.balancer import Balancer
@@ -273,6 +278,10 @@ class BackendVSA(Backend):
 
         if isinstance(o, BoolResult) and isinstance(a, UninitializedAnnotation):
             # TODO: Do we want to do anything here?
+            return o
+
+        if isinstance(a, SimplificationAvoidanceAnnotation):
+            # it says how the expression may be rewritten, nothing about its value
             return o
 
         raise ValueError(f"Unsupported annotation type {type(a)} for object {type(o)}")
